@@ -76,7 +76,7 @@ pub fn replay(case: &Value) -> Vec<Obs> {
     let exp_done = case["done"].as_u64().unwrap() as usize;
     let exp_res: Vec<Tm> = case["res"].as_array().unwrap().iter().map(tm_from_json).collect();
     let nvars = prior_t.len();
-    let names = ["$X", "$Y", "$Z", "$W", "$V"];
+    let names = ["$X", "$Y", "$Z", "$W", "$V", "$U", "$T", "$S", "$R"];
     let vars: Vec<Tm> = (1..=nvars).map(|i| Tm::Var(i, names[i - 1].to_string())).collect();
     let what = describe(&pairs_t, &prior_t);
     let mut obs = vec![];
